@@ -13,13 +13,14 @@ subprocess.run(["git", "-C", "/repo", "worktree", "add", "--detach", repo, "HEAD
 coq = os.path.join(S, "coq")
 shutil.copytree(os.path.join(ROOT, "coq"), coq)
 env = dict(os.environ, VERIF_REPO=repo, VERIF_LOGIC_OUT=os.path.join(coq, "Gen", "LogicGen.v"), VERIF_LOGIC_STATUS=os.path.join(S, "status.json"))
-ties = sorted(os.path.basename(f)[:-2] for f in glob.glob(os.path.join(coq, "Proofs", "Tie*.v"))) + ["ChecksumTie", "TargetsProofs"]
+ties = sorted(os.path.basename(f)[:-2] for f in glob.glob(os.path.join(coq, "Proofs", "Tie*.v"))) + ["ChecksumTie", "ChecksumProofs", "TargetsProofs"]
 def run_ties():
+    subprocess.run(["python3", os.path.join(HERE, "gen_checksum.py")], env=dict(env, VERIF_GEN_OUT=os.path.join(coq, "Gen", "ChecksumGen.v")), capture_output=True)
     subprocess.run(["python3", os.path.join(HERE, "gen_logic.py")], env=env, capture_output=True)
     st = json.load(open(env["VERIF_LOGIC_STATUS"]))
     refused = [f["function"] for f in st.get("failed", [])]
     p = subprocess.run(["timeout", "1500", "make", "-k", "-j8"] + ["Proofs/%s.vo" % t for t in ties], cwd=coq, capture_output=True, text=True)
-    broken = sorted(set(re.findall(r"\[Makefile:\d+: Proofs/(\w+)\.vo\] Error", p.stdout + p.stderr)))
+    broken = sorted(set(re.findall(r"\[Makefile:\d+: (?:Proofs|Gen)/(\w+)\.vo\] Error", p.stdout + p.stderr)))
     return refused, broken
 try:
     base_ref, base_bro = run_ties()
@@ -40,7 +41,7 @@ try:
     lines = ["# Seeded changes flagged by the translator ties alone", "",
              "Produced by `tools/tie_coverage.py` (no generator, no harness: only `tools/gen_logic.py` on the changed checkout and the",
              "`Proofs/Tie*.v` files).  *refused* = the translator no longer accepts the function (fails closed); *broken* = the",
-             "function still translates but a tie proof no longer checks.  Baseline (unchanged tree): refused %s, broken %s." % (base_ref or "none", base_bro or "none"), "",
+             "function still translates but the generated file or a tie proof no longer checks.  Baseline (unchanged tree): refused %s, broken %s." % (base_ref or "none", base_bro or "none"), "",
              "**%d of %d applicable changes are flagged** (%d recorded; the others no longer apply to HEAD)." % (flagged, applicable, len(rows)), "",
              "| change | refused by the translator | tie proofs that no longer check |", "|---|---|---|"]
     for mid, r, b in rows:
